@@ -448,6 +448,14 @@ func checkVerifier(c *Ctx, fn *ssa.Function) {
 		}
 	}
 	if k == nil {
+		// (*rsa.PublicKey).Size() is that same quantity
+		for _, call := range callsTo(fn, "(*crypto/rsa.PublicKey).Size") {
+			if cv, ok := call.(*ssa.Call); ok && len(cv.Call.Args) == 1 && w.Expr(cv.Call.Args[0]) == "p0" {
+				k = cv
+			}
+		}
+	}
+	if k == nil {
 		und("k = (pub.N.BitLen()+7)/8")
 		return
 	}
